@@ -414,6 +414,9 @@ impl IoLoop {
         ch0_slot: Channel0Slot,
     ) -> Result<()> {
         let mut state = ConnectionState::Steady(ch0_slot);
+        for frame in std::mem::take(&mut self.inner.early_frames) {
+            state.process(&mut self.inner, frame)?;
+        }
         self.run_io_loop(
             stream,
             &mut state,
@@ -668,6 +671,10 @@ struct Inner {
     // Slots for open channels. Channel 0 should be here once handshake is done.
     chan_slots: ChannelSlots<ChannelSlot>,
 
+    // Frames that were read together with the OpenOk that completed the handshake; the
+    // connection handles them before it polls for the first time.
+    early_frames: Vec<AMQPFrame>,
+
     // Bound for in-memory channels that send to our I/O thread. (Channels going _from_
     // the I/O thread are unbounded to prevent blocking the I/O thread on slow receviers.)
     mio_channel_bound: usize,
@@ -682,6 +689,7 @@ impl Inner {
             outbuf: SealableOutputBuffer::new(OutputBuffer::with_protocol_header()),
             heartbeats,
             chan_slots: ChannelSlots::new(),
+            early_frames: Vec::new(),
             mio_channel_bound,
             channels_are_registered: true,
         }
